@@ -15,19 +15,27 @@
      parse/stmt  error exactly when the exact total does not fit in int64 (or the text is no
                  duration), otherwise the value is the exact total
      format      d # MinInt64: text is <q><largest unit dividing d>, zero is "0s", back = d
+                 (d = MinInt64 is excluded by the property and not judged either way)
+
+   The design (DurParse / DurBig!Design, checked uint64 accumulation) is proved to accept exactly the
+   totals that fit, with the exact value; so "what the design predicts" coincides with the demand,
+   except where the property leaves a choice ("exact or an error") and the design makes it:
+   a spelling of MinInt64 whose numeral is beyond int64 (`-9223372036854775808ns`) is accepted.
 
    Classes written to the verdict file:
      Dev_WrapToNonNegative      accepted, unsigned spelling, total does not fit, value = total
-                                reduced mod 2^64 into int64 and >= 0          (known finding)
+                                reduced mod 2^64 into int64 and >= 0
      Dev_WrapNegativeUnchecked  accepted, spelling with leading '-', total does not fit,
-                                value = total reduced mod 2^64 into int64     (known finding)
+                                value = total reduced mod 2^64 into int64
+                                (both: the shapes of the defect repaired by 7063cd7; they only NAME the
+                                failure should it return - they are violations, not known findings)
      accepted-overflow          any other accepted total that does not fit
      wrong-value / rejected-representable / accepted-malformed / panic / literal-missing
      zero-not-0s / format-unreadable / not-largest-unit / format-wrong-number /
      roundtrip-rejected / roundtrip-differs
-     drift:rejects-where-design-wraps   the code rejects (as C08 demands) a spelling that the
-                                design spec DurParse accepts with a wrapped value: the design
-                                spec is stale; reported, never an alarm
+     drift:rejects-where-design-accepts   the code refuses a MinInt64 spelling with a numeral beyond
+                                int64, which the property allows but the design spec accepts:
+                                the design spec is stale; reported, never an alarm
      harness:*                  the record itself is unusable (machinery failure, exit 2)     *)
 EXTENDS DurBig, Json, CSV, IOUtils
 
@@ -47,7 +55,15 @@ CtxSig(c) == IF Len(c) >= 2 THEN SubSeq(c, 1, 2) ELSE c      \* cr ar cd cq gb w
 Panicked(o) == Has(o, "panic") \/ Has(o, "harness_panic")
 
 \* ---- ParseDuration(text) ------------------------------------------------------------
-ParseVerdict(r, wf, m, big) ==    \* wf = well-formed components, m = MagSum(r.comps), big = NumeralTooBig(r.comps)
+\* names the shape of an accepted total that does not fit (ex = exact signed total)
+Overflowed(neg, ex, val, sg) ==
+  LET w == WrapI64(ex) IN
+  IF val = ToDec(w) THEN (IF neg THEN V("Dev_WrapNegativeUnchecked", sg)
+                          ELSE IF ~w.neg THEN V("Dev_WrapToNonNegative", sg)
+                          ELSE V("accepted-overflow", "wrapped-negative " \o sg))
+  ELSE V("accepted-overflow", sg)
+
+ParseVerdict(r, wf, m, big) ==    \* wf = well-formed components, m = MagSum(r.comps), big = NumeralAboveI64(r.comps)
   LET o == r.obs IN
   IF Panicked(o) THEN V("panic", "parse")
   ELSE IF ~(Has(o, "err") \/ Has(o, "val")) THEN V("harness:no-outcome", "parse")
@@ -57,23 +73,15 @@ ParseVerdict(r, wf, m, big) ==    \* wf = well-formed components, m = MagSum(r.c
   ELSE
     LET ex == Signed(r.neg, m) IN
     IF Fits64(ex) THEN
-         IF Has(o, "err") THEN (IF big THEN OK                         \* e.g. -9223372036854775808ns: may be refused
+         IF Has(o, "err") THEN (IF big THEN V("drift:rejects-where-design-accepts", "")   \* -9223372036854775808ns: "or an error"
                                 ELSE V("rejected-representable", Sig(r.neg, r.comps)))
          ELSE IF o.val = ToDec(ex) THEN OK
          ELSE V("wrong-value", Sig(r.neg, r.comps))
-    ELSE
-         IF Has(o, "err") THEN (IF ~big /\ (r.neg \/ ~WrapI64(m).neg)      \* = DurBig!DesignAccepts
-                                THEN V("drift:rejects-where-design-wraps", "") ELSE OK)
-         ELSE LET w == WrapI64(ex) IN
-              IF o.val = ToDec(w) /\ ~big
-              THEN (IF r.neg THEN V("Dev_WrapNegativeUnchecked", "")
-                    ELSE IF ~w.neg THEN V("Dev_WrapToNonNegative", "")
-                    ELSE V("accepted-overflow", "wrapped-negative " \o Sig(r.neg, r.comps)))
-              ELSE V("accepted-overflow", Sig(r.neg, r.comps))
+    ELSE IF Has(o, "err") THEN OK
+    ELSE Overflowed(r.neg, ex, o.val, Sig(r.neg, r.comps))
 
 \* ---- a DURATIONVAL literal inside a statement -----------------------------------------
 \* The literal itself is unsigned; under a unary minus (sgn) the statement carries -total.
-ZeroRefused == {"cq_every", "cq_for", "cq_gb"}    \* a (wrapped) zero there is refused by the statement's own rules
 StmtVerdict(r, wf, m, big) ==
   LET o == r.obs IN
   IF Panicked(o) THEN V("panic", CtxSig(r.ctx))
@@ -85,14 +93,11 @@ StmtVerdict(r, wf, m, big) ==
          IF Has(o, "err") THEN V("rejected-representable", CtxSig(r.ctx))
          ELSE IF o.val = ToDec(Signed(r.sgn, m)) THEN OK
          ELSE V("wrong-value", CtxSig(r.ctx))
-    ELSE IF r.sgn /\ Eq(m, P63) /\ (Has(o, "err") \/ (Has(o, "val") /\ o.val = ToDec(MinI64))) THEN OK   \* -2^63 written with a sign: either reading
-    ELSE
-         IF Has(o, "err") THEN (IF ~big /\ ~WrapI64(m).neg /\ ~(r.ctx \in ZeroRefused /\ IsZero(WrapI64(m)))
-                                THEN V("drift:rejects-where-design-wraps", "") ELSE OK)
-         ELSE LET w == WrapI64(m) IN
-              IF ~w.neg /\ ~big /\ o.val = ToDec(Signed(r.sgn, w))
-              THEN V("Dev_WrapToNonNegative", "")
-              ELSE V("accepted-overflow", CtxSig(r.ctx))
+    ELSE IF Has(o, "err") THEN OK                  \* also for -<2^63>: the unsigned literal does not fit (design: error)
+    ELSE IF r.sgn /\ Eq(m, P63) /\ o.val = ToDec(MinI64) THEN OK     \* reading "-2^63 as a whole" is exact as well
+    ELSE LET w == WrapI64(m) IN
+         IF ~w.neg /\ o.val = ToDec(Signed(r.sgn, w)) THEN V("Dev_WrapToNonNegative", CtxSig(r.ctx))
+         ELSE V("accepted-overflow", CtxSig(r.ctx))
 
 \* ---- FormatDuration(d), ParseDuration of the result ------------------------------------
 IsInt(s) == IF Len(s) > 1 /\ SubSeq(s, 1, 1) = "-" THEN IsDigits(SubSeq(s, 2, Len(s))) ELSE IsDigits(s)
@@ -155,7 +160,7 @@ Analyse(r) ==
   ELSE IF r.k \in {"parse", "stmt"} THEN
        LET wf  == HasComps(r)
            m   == IF wf THEN MagSum(r.comps) ELSE Zero
-           big == wf /\ NumeralTooBig(r.comps) IN
+           big == wf /\ NumeralAboveI64(r.comps) IN
        [v |-> IF r.k = "parse" THEN ParseVerdict(r, wf, m, big) ELSE StmtVerdict(r, wf, m, big),
         nt |-> wf /\ (Len(r.comps) >= 2 \/ NatCmp(m.mag, Big31.mag) >= 0),
         unfit |-> wf /\ ~Fits64(IF r.k = "parse" THEN Signed(r.neg, m) ELSE m)]
